@@ -179,30 +179,49 @@ Definition cap_rank (filter : cs_data -> bool) (spans : list aspan) (k : nat) : 
 
 Definition indexed {A} (l : list A) : list (nat * A) := combine (seq 0 (List.length l)) l.
 
-Definition build (filter : cs_data -> bool) (closed : nat -> bool) (st : astate) : cstorage :=
+Definition lparent_of (spans : list aspan) (k : nat) : option nat :=
+  match nth_error spans k with Some s => as_lparent s | None => None end.
+(** the captured span a span / an event is attached to *)
+Definition span_attach (filter : cs_data -> bool) (spans : list aspan) (k : nat) : option nat :=
+  attach filter spans (lparent_of spans k).
+Definition event_attach (filter : cs_data -> bool) (spans : list aspan) (evs : list aevent) (i : nat)
+  : option nat :=
+  match nth_error evs i with Some e => attach filter spans (ae_lparent e) | None => None end.
+
+(** the captured children of span [k] / the spans without captured ancestor ([k = None]), by
+    creation index, in creation order; likewise for events *)
+Definition attached_spans (filter : cs_data -> bool) (spans : list aspan) (k : option nat) : list nat :=
+  List.filter (fun c => captured filter spans c && opt_nat_eqb (span_attach filter spans c) k)
+              (seq 0 (List.length spans)).
+Definition attached_events (filter : cs_data -> bool) (spans : list aspan) (evs : list aevent)
+           (k : option nat) : list nat :=
+  List.filter (fun i => opt_nat_eqb (event_attach filter spans evs i) k) (seq 0 (List.length evs)).
+
+Definition build_span (filter : cs_data -> bool) (closed : nat -> bool) (st : astate) (ks : nat * aspan)
+  : span_rec span_payload :=
   let spans := a_spans st in
   let rank := cap_rank filter spans in
-  let caps := List.filter (fun ks => filter (as_meta (snd ks))) (indexed spans) in
-  let evs := indexed (a_events st) in
-  let sattach (ks : nat * aspan) := attach filter spans (as_lparent (snd ks)) in
-  let eattach (ie : nat * aevent) := attach filter spans (ae_lparent (snd ie)) in
+  let k := fst ks in let s := snd ks in
+  mk_span (mk_spl (as_meta s) (as_values s) (as_entered s) (as_exited s) (closed k))
+          (rank k)
+          (option_map rank (span_attach filter spans k))
+          (map rank (attached_spans filter spans (Some k)))
+          (map N.of_nat (attached_events filter spans (a_events st) (Some k)))
+          (map rank (as_follows s)).
+
+Definition build_event (filter : cs_data -> bool) (st : astate) (ie : nat * aevent)
+  : event_rec event_payload :=
+  mk_event (mk_epl (ae_meta (snd ie)) (ae_values (snd ie))) (N.of_nat (fst ie))
+           (option_map (cap_rank filter (a_spans st)) (attach filter (a_spans st) (ae_lparent (snd ie)))).
+
+Definition build (filter : cs_data -> bool) (closed : nat -> bool) (st : astate) : cstorage :=
+  let spans := a_spans st in
   mk_storage
-    (map (fun ks =>
-            let k := fst ks in let s := snd ks in
-            mk_span (mk_spl (as_meta s) (as_values s) (as_entered s) (as_exited s) (closed k))
-                    (rank k)
-                    (option_map rank (sattach ks))
-                    (map (fun cs => rank (fst cs))
-                         (List.filter (fun cs => opt_nat_eqb (sattach cs) (Some k)) caps))
-                    (map (fun ie => N.of_nat (fst ie))
-                         (List.filter (fun ie => opt_nat_eqb (eattach ie) (Some k)) evs))
-                    (map rank (as_follows s)))
-         caps)
-    (map (fun ie => mk_event (mk_epl (ae_meta (snd ie)) (ae_values (snd ie))) (N.of_nat (fst ie))
-                             (option_map rank (eattach ie)))
-         evs)
-    (map (fun cs => rank (fst cs)) (List.filter (fun cs => opt_nat_eqb (sattach cs) None) caps))
-    (map (fun ie => N.of_nat (fst ie)) (List.filter (fun ie => opt_nat_eqb (eattach ie) None) evs)).
+    (map (build_span filter closed st)
+         (List.filter (fun ks => filter (as_meta (snd ks))) (indexed spans)))
+    (map (build_event filter st) (indexed (a_events st)))
+    (map (cap_rank filter spans) (attached_spans filter spans None))
+    (map N.of_nat (attached_events filter spans (a_events st) None)).
 
 (** closed = all handles dropped, not entered, no open children *)
 Definition spec_storage (filter : cs_data -> bool) (ids : list N) (p : prog) : cstorage :=
